@@ -101,6 +101,9 @@ func (c *C02Case) NTKey() string {
 	return ""
 }
 
+// hiddenTail marks the entries of a caller-owned slice list beyond the length that is passed in.
+var hiddenTail = RS{-7, -7, -7}
+
 // inF2 is the region of known finding F2: a stepped range on the leading axis
 // whose (clamped) extent is not a multiple of the step.
 func inF2(shape []int, specs []SpecJ) bool {
@@ -225,6 +228,7 @@ func (c *C02Case) Run() string {
 		// ---- library
 		var v tensor.View
 		var lerr error
+		tailTouched := ""
 		pan := try(func() {
 			switch {
 			case st.Op == "narrow" && st.Via == "pkg":
@@ -232,10 +236,23 @@ func (c *C02Case) Run() string {
 			case st.Op == "narrow":
 				v, lerr = t.Narrow(st.Dim, st.Start, st.Len)
 			default:
-				sl := make([]tensor.Slice, len(specs))
+				// the list is a prefix of a longer array the caller owns: what lies beyond its length is the caller's
+				full := make([]tensor.Slice, len(specs)+3)
+				for i := range full {
+					full[i] = hiddenTail
+				}
+				sl := full[:len(specs)]
 				for i, s := range specs {
 					sl[i] = s.lib(st.Via)
 				}
+				defer func() {
+					for i := len(specs); i < len(full); i++ {
+						if full[i] != tensor.Slice(hiddenTail) {
+							lerr = nil
+							tailTouched = fmt.Sprintf("entry %d beyond the length of the caller's slice list was overwritten with %v", i, full[i])
+						}
+					}
+				}()
 				switch st.Into {
 				case "":
 					v, lerr = t.Slice(sl...)
@@ -256,6 +273,9 @@ func (c *C02Case) Run() string {
 		desc := fmt.Sprintf("step %d: %v%v on shape %v (source %v)", si, st.Op, specs, m.Shape, c.L)
 		if pan != "" {
 			return desc + " panicked: " + pan
+		}
+		if tailTouched != "" {
+			return desc + ": " + tailTouched
 		}
 		if !valid {
 			rec.Class("invalid-spec")
@@ -366,6 +386,33 @@ func (c *C02Case) Run() string {
 			}
 			if diff := b.FrameDiff(b.RootE); diff != "" {
 				return desc + ": after restoring: " + diff
+			}
+			// a bulk write through the view (Memset decides by the view's own bookkeeping, not by coordinates)
+			nv := conv(d, 245)
+			if d.Name == "bool" {
+				nv = true
+			}
+			var merr error
+			if pan := try(func() { merr = vd.Memset(nv) }); pan != "" {
+				return desc + ": Memset through the view panicked: " + pan
+			}
+			if merr == nil {
+				exp := append([]interface{}{}, b.RootE...)
+				for _, j := range widx {
+					exp[j] = nv
+				}
+				if diff := b.FrameDiff(exp); diff != "" {
+					return desc + fmt.Sprintf(": after Memset(%s) through the view: %s", fmtVal(nv), diff)
+				}
+				for k, cc := range coordsOf(got) {
+					if len(got) == 0 {
+						cc = nil
+					}
+					_ = vd.SetAt(want.E[k], cc...)
+				}
+				if diff := b.FrameDiff(b.RootE); diff != "" {
+					return desc + ": after restoring what Memset wrote: " + diff
+				}
 			}
 		}
 		if vd == t {
